@@ -3,6 +3,7 @@ package props
 import (
 	"fmt"
 	"os"
+	"strings"
 	"time"
 
 	sdk "github.com/cosmos/cosmos-sdk/types"
@@ -247,13 +248,103 @@ func CheckC14(tier string) int {
 			}
 		}
 	}
+	// ---- the newest trusted state after a header update is the header's own time: BSC and ETH clients are created, given
+	// one valid header (delivered late for ETH), and their status is read on both sides of header time + trusting period;
+	// the next header must be accepted before and refused after that moment
+	{
+		const P = 1000
+		w := world.NewWorld(world.WorldOpts{Names: []string{A}, NoMesh: true})
+		c := w.C(A)
+		ck := c.App.TIBCKeeper.ClientKeeper
+		prev := ethtypes.SealCheck
+		ethtypes.SealCheck = false
+		type upd struct {
+			kind                string
+			headerTime          uint64
+			create, first, next func(ctx sdk.Context) error
+		}
+		sc := bscScenario{N: 3, Epoch: 4}
+		gen, vals := sc.genesis()
+		var vb [][]byte
+		for _, v := range sortedAddrs(vals) {
+			vb = append(vb, v.Bytes())
+		}
+		pickValid := func(st bscState) bscSpec {
+			for _, sp := range sc.menu(st) {
+				if st.Ghost.expect(sp) && !strings.Contains(sp.Label, "corrupted") {
+					return sp
+				}
+			}
+			panic("no valid BSC header in the menu")
+		}
+		st0 := bscState{Ghost: bscGhost{Number: gen.Height.RevisionHeight, Vals: vals, Pending: vals, Signers: map[uint64]int{}, Epoch: sc.Epoch}}
+		s1 := pickValid(st0)
+		h1 := s1.build(gen)
+		st1 := bscState{Hist: []bscSpec{s1}, Ghost: st0.Ghost.apply(s1)}
+		h2 := pickValid(st1).build(*h1)
+		eg := ethGenesis()
+		e1 := ethChild(eg, 13, "n0", "0")
+		e2 := ethChild(e1, 13, "n1", "1")
+		cases := []upd{
+			{"bsc", h1.Time,
+				func(ctx sdk.Context) error {
+					return ck.CreateClient(ctx, "bscchainb", &bsctypes.ClientState{Header: gen, ChainId: bscChainID, Epoch: sc.Epoch, BlockInteval: 3, Validators: vb, ContractAddress: make([]byte, 20), TrustingPeriod: P},
+						&bsctypes.ConsensusState{Timestamp: gen.Time, Number: gen.Height, Root: gen.Root})
+				},
+				func(ctx sdk.Context) error { return ck.UpdateClient(ctx, "bscchainb", h1) },
+				func(ctx sdk.Context) error { return ck.UpdateClient(ctx, "bscchainb", h2) }},
+			{"eth", e1.Time,
+				func(ctx sdk.Context) error {
+					gh := toRepoHeader(eg)
+					return ck.CreateClient(ctx, "ethchaine", &ethtypes.ClientState{Header: *gh, ChainId: 1, ContractAddress: make([]byte, 20), TrustingPeriod: P},
+						&ethtypes.ConsensusState{Timestamp: eg.Time, Number: gh.Height, Root: eg.Root[:]})
+				},
+				func(ctx sdk.Context) error { return ck.UpdateClient(ctx, "ethchaine", toRepoHeader(e1)) },
+				func(ctx sdk.Context) error { return ck.UpdateClient(ctx, "ethchaine", toRepoHeader(e2)) }},
+		}
+		names := map[string]string{"bsc": "bscchainb", "eth": "ethchaine"}
+		for _, u := range cases {
+			// the header is delivered 500 s after its own timestamp (inside the trusting period of the trusted header)
+			ctx := c.ReadCtx(time.Unix(int64(u.headerTime)+500, 0))
+			must(u.create(ctx))
+			if err := u.first(ctx); err != nil {
+				add("harness-control-failed:first-"+u.kind+"-header", err.Error())
+				continue
+			}
+			for _, off := range []int64{-2, -1, 1, 2, 400, 499, 501, 503} {
+				at := time.Unix(int64(u.headerTime)+P+off, 0)
+				cctx, _ := ctx.WithBlockTime(at).CacheContext()
+				cs, _ := ck.GetClientState(cctx, names[u.kind])
+				got := cs.Status(cctx, ck.ClientStore(cctx, names[u.kind]), c.App.AppCodec())
+				err := u.next(cctx)
+				msgEvals += 2
+				where := fmt.Sprintf("trusting period %d s, newest header time t, delivered at t+500: block time t+%d", P, P+off)
+				if off < 0 {
+					if got != exported.Active {
+						add(u.kind+":client-inside-trusting-period-reports-"+string(got)+":after-header-update", where, u.kind, where)
+					}
+					if err != nil {
+						add(u.kind+":header-refused-inside-trusting-period:after-header-update", where+": "+err.Error(), u.kind, where)
+					}
+				} else {
+					if got != exported.Expired {
+						add(u.kind+":expired-client-reports-"+string(got)+":after-header-update", where, u.kind, where)
+					}
+					if err == nil {
+						add(u.kind+":expired-client-accepts-header:after-header-update", where, u.kind, where)
+					}
+				}
+			}
+		}
+		ethtypes.SealCheck = prev
+	}
 	cov := map[string]any{
 		"evaluations": evals + msgEvals, "distinct_nontrivial": expired + active,
 		"rule":   "status grid: every (client type, trusting period, age offset, sub-second parts) combination is evaluated once; non-trivial = points strictly inside or strictly past the trusting period (both judged); age = period is don't-care",
 		"states": 3*len(periods) + 8, "transitions": evals + msgEvals, "traces_validated_against_impl": evals + msgEvals,
 		"status_points": evals, "expired_points": expired, "active_points": active, "dont_care_points": dontCare, "message_level_submissions": msgEvals,
 		"samples": samples, "exhaustive": true,
-		"bounds": fmt.Sprintf("trusting periods %v s; ages period-2..period+2 units, 0, 10*period, 1e9 s+period; sub-second parts %v ns; client types tendermint (ns), bsc and eth (whole seconds); message level: MsgRecvPacket/MsgAcknowledgement/MsgRecvCleanPacket/MsgUpdateClient through a Tendermint client 10 minutes inside and 10 minutes past the trusting period, MsgRecvPacket through ETH and BSC clients with canonical MPT proofs", periods, subs),
+		"bounds": fmt.Sprintf("trusting periods %v s; ages period-2..period+2 units, 0, 10*period, 1e9 s+period; sub-second parts %v ns; client types tendermint (ns), bsc and eth (whole seconds); message level: MsgRecvPacket/MsgAcknowledgement/MsgRecvCleanPacket/MsgUpdateClient through a Tendermint client 10 minutes inside and 10 minutes past the trusting period, MsgRecvPacket through ETH and BSC clients with canonical MPT proofs; BSC and ETH clients after one real header update (ETH delivered 500 s late): status and the next header at header time + period -2..+503 s", periods, subs),
 	}
 	fmt.Fprintf(os.Stderr, "[C14] status points=%d (expired %d, active %d, dont-care %d) message-level=%d (%.1fs)\n", evals, expired, active, dontCare, msgEvals, time.Since(start).Seconds())
 	return report.Finish("C14", tier, start, "model_checking", cov, []string{
